@@ -1,6 +1,7 @@
 #!/bin/bash
-# usage: negcheck.sh <diff>...  -- behaviour-preserving refactors: every check must stay silent (exit 0)
+# usage: negcheck.sh [<diff>...]  -- behaviour-preserving refactors (default: /verif/negative/*/*.diff): every check must stay silent (exit 0)
 set -u
+[ $# -eq 0 ] && set -- /verif/negative/*/*.diff
 export GOFLAGS=-mod=mod GOPROXY=off GOSUMDB=off GOTOOLCHAIN=local
 bin=$(mktemp /tmp/kbcheck.XXXXXX); cp /verif/bin/kbcheck $bin; chmod +x $bin
 for df in "$@"; do
